@@ -1261,7 +1261,19 @@ func ReturnCompleteness(p *core.Program, r *core.Report, rule string) {
 					continue
 				}
 				if kind == "b" && strings.ContainsAny(path, "(") {
-					continue // an opaque predicate does not pin its argument
+					// an opaque predicate does not pin its argument - except a parameterless method of an input that is
+					// not a module struct (an interface value, typically): the input's own API was asked about the
+					// input, so leaving the input out on this path is an alternative rendering decided by looking at it
+					sp := facts.StripVersions(path)
+					for _, v := range params {
+						if structParam[v] || v.Name() == "" {
+							continue
+						}
+						if strings.HasPrefix(sp, v.Name()+".") && strings.HasSuffix(sp, "()") && strings.Count(sp, "(") == 1 && !strings.Contains(strings.TrimPrefix(sp, v.Name()+"."), ".") {
+							ri.pinned[v.Name()] = true
+						}
+					}
+					continue
 				}
 				if kind == "eq" && strings.Contains(path, "(") && !strings.Contains(path, ".Size()==0") && !strings.HasPrefix(path, "len(") {
 					continue
